@@ -35,6 +35,12 @@ impl SingleScramCredential {
         scram_version: ScramVersion,
     ) -> Result<Self, ServerScramErrorKind> {
         let salt: [u8; 32] = rand::rng().random();
+        #[cfg(fe2o3_amqp_verif)]
+        let salt = {
+            let mut salt = salt;
+            crate::verif::entropy(&mut salt);
+            salt
+        };
         let salt = Vec::from(salt);
         let salted_password = scram_version.compute_salted_password::<ServerScramErrorKind>(
             password.as_ref(),
